@@ -90,9 +90,23 @@ Proof.
   - right. apply sqrt3_0 in Hg. destruct Hg as (-> & -> & ->). repeat split; reflexivity.
   - left. dr_leaf Hq w x y z g0 g1 g2 (1/100).
 Qed.
-(* magnetometer dropout with a valid accelerometer: the step IS the IMU step (correction by the accelerometer only) *)
-Lemma mad_marg_m0 w x y z g0 g1 g2 a0 a1 a2 dt : sq4 w x y z = 1 ->
-  C13_mad_marg_m0_R w x y z g0 g1 g2 a0 a1 a2 dt = C13_mad_imu_R w x y z g0 g1 g2 a0 a1 a2.
+
+(* ---- Mahony: the output is [q'; b'] — the carried gyro bias b is returned unchanged on a dropout ----------- *)
+Lemma mah_imu_a0 w x y z g0 g1 g2 b0 b1 b2 dt : sq4 w x y z = 1 ->
+  C13_mah_imu_a0_R w x y z g0 g1 g2 b0 b1 b2 dt = Val (dr w x y z g0 g1 g2 dt ++ [b0;b1;b2]).
 Proof.
-  intros Hq. unfold C13_mad_marg_m0_R, C13_mad_imu_R. cbv zeta. unit_sqrt Hq. gate1. reflexivity.
+  intros Hq. unfold C13_mah_imu_a0_R. cbv zeta. unit_sqrt Hq. gate1. case_gyr Hq g0 g1 g2.
+  dr_leaf Hq w x y z g0 g1 g2 dt.
+Qed.
+Lemma mah_marg_a0 w x y z g0 g1 g2 m0 m1 m2 b0 b1 b2 dt : sq4 w x y z = 1 ->
+  C13_mah_marg_a0_R w x y z g0 g1 g2 m0 m1 m2 b0 b1 b2 dt = Val (dr w x y z g0 g1 g2 dt ++ [b0;b1;b2]).
+Proof.
+  intros Hq. unfold C13_mah_marg_a0_R. cbv zeta. unit_sqrt Hq. gate1. case_gyr Hq g0 g1 g2.
+  dr_leaf Hq w x y z g0 g1 g2 dt.
+Qed.
+Lemma mah_marg_am0 w x y z g0 g1 g2 b0 b1 b2 dt : sq4 w x y z = 1 ->
+  C13_mah_marg_am0_R w x y z g0 g1 g2 b0 b1 b2 dt = Val (dr w x y z g0 g1 g2 dt ++ [b0;b1;b2]).
+Proof.
+  intros Hq. unfold C13_mah_marg_am0_R. cbv zeta. unit_sqrt Hq. gate1. case_gyr Hq g0 g1 g2.
+  dr_leaf Hq w x y z g0 g1 g2 dt.
 Qed.
